@@ -672,3 +672,53 @@ def explain_lintfile(*a):
 
 
 EXPLAIN["_lintfile"] = explain_lintfile
+
+
+# ------------------------------------------------------------------ lint-file sees the same covered files as lint
+# Project.subset_files (lint-file) restricted to F must be Project.all_files (lint) intersected with F,
+# under every combination of the include options and VCS answers.
+def subsetflags_story(d1, d2ign, d2sub, use_vcs, inc_sub, inc_meson):
+    dn = DIRNAMES[_pick_from(d1, list(range(len(DIRNAMES))))]
+    d2ign, d2sub, use_vcs, inc_sub, inc_meson = _b(d2ign), _b(d2sub), _b(use_vcs), _b(inc_sub), _b(inc_meson)
+    D1 = f"{ROOT}/{dn}"
+    D2 = f"{D1}/pkg"
+    H, F = f"{D2}/h.py", f"{ROOT}/top.py"
+    FakePath.FS = {ROOT: "dir", D1: "dir", D2: "dir", H: "file", F: "file"}
+    tree = {ROOT: ([dn], ["top.py"]), D1: (["pkg"], []), D2: ([], ["h.py"])}
+    vcs = FakeVCS({D2} if d2ign else set(), {D2} if d2sub else set()) if use_vcs else FakeVCS(set(), set())
+    saved = (cf.Path, cf.os.walk)
+    cf.Path = FakePath
+    cf.os.walk = walk_model(tree)
+    try:
+        project = pj.Project(FakePath(ROOT), vcs_strategy=vcs, license_map={}, licenses={}, include_submodules=inc_sub, include_meson_subprojects=inc_meson)
+        object.__setattr__(project, "root", FakePath(ROOT))
+        everything = sorted(str(p) for p in project.all_files())
+        named = sorted(str(p) for p in project.subset_files([FakePath(H), FakePath(F)]))
+        only_h = sorted(str(p) for p in project.subset_files([FakePath(H)]))
+    finally:
+        cf.Path, cf.os.walk = saved
+    ok = named == everything and only_h == [x for x in everything if x == H]
+    return ok, {"dir": dn, "pkg_vcs_ignored": d2ign, "pkg_submodule": d2sub, "vcs": use_vcs, "include_submodules": inc_sub, "include_meson_subprojects": inc_meson, "lint_examines": everything, "lint_file_all_named": named, "lint_file_only_h": only_h}
+
+
+def _subsetflags(d1: int, d2ign: bool, d2sub: bool, use_vcs: bool, inc_sub: bool, inc_meson: bool) -> bool:
+    """
+    pre: 0 <= d1 < len(DIRNAMES)
+    post: _
+    """
+    return subsetflags_story(d1, d2ign, d2sub, use_vcs, inc_sub, inc_meson)[0]
+
+
+def _subsetflags_reach(d1: int, d2ign: bool, d2sub: bool, use_vcs: bool, inc_sub: bool, inc_meson: bool) -> bool:
+    """
+    pre: 0 <= d1 < len(DIRNAMES)
+    post: False
+    """
+    return subsetflags_story(d1, d2ign, d2sub, use_vcs, inc_sub, inc_meson)[0]
+
+
+def explain_subsetflags(*a):
+    return subsetflags_story(*a)[1]
+
+
+EXPLAIN["_subsetflags"] = explain_subsetflags
